@@ -305,11 +305,14 @@ fn main() {
 		}
 		"C15" => {
 			let mut k = 0usize;
+			let mut wk = args.shard;
 			while !budget.exhausted() {
 				if k % 6 == 5 {
 					watcher::callback_faults(&args, &mut rng, &mut rep);
 				} else if k % 3 == 2 {
-					watcher::run_one("C15", &args, &mut rng, &mut rep, k);
+					// the watcher scenarios have their own counter (their templates rotate on it)
+					watcher::run_one("C15", &args, &mut rng, &mut rep, wk);
+					wk += 1;
 				} else {
 					let s = c15_scenario(&mut rng, k + args.shard);
 					run_synth("C15", &s, &mut rep, k < 2);
@@ -323,7 +326,7 @@ fn main() {
 				if k % 5 == 4 {
 					watcher::real_variant(&args, &mut rng, &mut rep, k);
 				} else {
-					watcher::run_one("C13", &args, &mut rng, &mut rep, k);
+					watcher::run_one("C13", &args, &mut rng, &mut rep, k + args.shard);
 				}
 				k += 1;
 			}
